@@ -12,7 +12,20 @@ NOT_APPLICABLE = {
     "C20": "clamps, Whalley-Wilmott band, SVI, bilerp, Box-Muller, realised volatility: piecewise formulas of the input tensor; " + PURE,
 }
 PLANNED = ["C01", "C02", "C03", "C06", "C10", "C11", "C12", "C13", "C14", "C15", "C16", "C17", "C18"]
+TECH = "deterministic simulation with fault injection: "
 CLAIMED = {
+    "C02": {
+        "text": "Seeded search over worlds (underlier x derivative x feature set x model x dtype) with fault F1 (future corruption): online - a causal market feed in which the simulator reveals column t+1 of every reachable buffer only after the model has answered step t, and offline - corrupt columns > t*, recompute, compare the prefix. Oracles: model inputs and hedges bitwise equal to the clean run for steps <= t, for both branches of compute_hedge and every feature separately; last two hedge columns bitwise equal. Sampling, not proof.",
+        "design_ref": "DESIGN.md 6/C02",
+        "note": "Garbage is kept admissible for whole-tensor validation in pricing modules (NaN/negative fills fall back to finite positive garbage when a module rejects them); 'empty' feature excluded; CPU only.",
+        "technique": TECH + "causal market feed through a per-step model seam + future-corruption differential, bitwise oracle",
+    },
+    "C03": {
+        "text": "Seeded search over worlds and short operation/fault sequences: every feature at every step vs its all-steps column; the same model driven through the vectorised and (via an ignored prev_hedge input) the stepwise branch - hedge, model inputs, P&L and loss compared; the recorded per-step inputs of a state-dependent hedger vs its previous outputs (bitwise), zero state of width H at step 0, T-1 calls; faults F2 (garbage prev_output), F8 (model raised in the previous call), F10 (hedger used on another simulation in between) placed right before the observed call.",
+        "design_ref": "DESIGN.md 6/C03",
+        "note": "Cross-schedule agreement is checked within an evaluation-order tolerance (16 ulp for direct features; 1e-4 float32 / 1e-9 float64 for model outputs, P&L, loss); recurrent-state checks are bitwise.",
+        "technique": TECH + "two schedules of one computation compared at a recording per-step seam, volatile-state faults",
+    },
     "C16": {
         "text": "Seeded search over interleaved multi-actor histories (simulate / hedge / P&L / loss / price / fit / casts / feature, Black-Scholes, criterion and functional calls) on shared instruments and hedgers, with faults F2 (volatile-state corruption), F3 (restart from durable state), F7 (RNG replay), F8 (callback exception) and F10 (re-simulation by another actor). Invariant after every operation: every buffer of every instrument and every caller tensor is bitwise unchanged; history oracle: a fresh clone built from durable state gives bitwise the same result. Sampling, not proof.",
         "design_ref": "DESIGN.md 6/C16",
